@@ -73,6 +73,16 @@ ListCases(ty) ==
              [form |-> "list", items |-> <<vs[1], vs[2], vs[3]>>], <<vs[1], vs[2], vs[3]>>,
              IF ty = "str" THEN "str" ELSE "num", "f:(" \o vs[3].text \o " OR " \o vs[2].text \o " OR " \o vs[1].text \o ")")}
 
+\* a range with one integer and one decimal end, every bracket combination
+MixedRangeCases ==
+  LET is == Small(Ints)  ds == Small(Decs) IN
+  UNION {{Case("range", "f:" \o Open(li) \o is[i].text \o " TO " \o ds[j].text \o Close(hi),
+               [form |-> "range", lo |-> is[i], hi |-> ds[j], loinc |-> li, hiinc |-> hi], <<is[i], ds[j]>>, "num",
+               "f:" \o Open(li) \o is[(i % Len(is)) + 1].text \o " TO " \o ds[(j % Len(ds)) + 1].text \o Close(hi)),
+          Case("range", "f:" \o Open(li) \o ds[j].text \o " TO " \o is[i].text \o Close(hi),
+               [form |-> "range", lo |-> ds[j], hi |-> is[i], loinc |-> li, hiinc |-> hi], <<ds[j], is[i]>>, "num",
+               "f:" \o Open(li) \o ds[(j % Len(ds)) + 1].text \o " TO " \o is[(i % Len(is)) + 1].text \o Close(hi))}
+         : i \in DOMAIN is, j \in DOMAIN ds, li \in BOOLEAN, hi \in BOOLEAN}
 \* a value list mixing integers and decimals
 MixedListCases ==
   LET is == Small(Ints)  ds == Small(Decs) IN
@@ -98,7 +108,7 @@ BigCases == {Case("big", "f" \o OpSym(op) \o Bigs[i].text, [form |-> "big"], <<B
                   Case("big", "f:(" \o Bigs[1].text \o " OR 5)", [form |-> "big"], <<Bigs[1], Ints[3]>>, "num", "")}
 All == BigCases \cup CmpCases("int") \cup CmpCases("float") \cup CmpCases("str")
        \cup RangeCases("int") \cup RangeCases("float") \cup RangeCases("str")
-       \cup ListCases("int") \cup ListCases("str") \cup LikeCases \cup MixedListCases \cup WildCmpCases \cup WildRangeCases
+       \cup ListCases("int") \cup ListCases("str") \cup LikeCases \cup MixedListCases \cup WildCmpCases \cup WildRangeCases \cup MixedRangeCases
 Cases == LET s == SetToSeq(All) IN [i \in DOMAIN s |-> [s[i] EXCEPT !.kind = "leaf"] @@ [id |-> i]]
 
 VARIABLE x
